@@ -8,7 +8,7 @@ Import ListNotations.
 
 Inductive exn : Type :=
 | KeyError | IndexError | ValueError | TypeError | AttributeError | StopIteration
-| NotImplementedError | NetworkXError | AssertionError | OverflowError | DispatchError
+| NotImplementedError | NetworkXError | NetworkXUnfeasible | AssertionError | OverflowError | DispatchError
 | OutOfFuel | OtherExn.
 
 Definition exn_eqb (a b : exn) : bool :=
@@ -16,6 +16,7 @@ Definition exn_eqb (a b : exn) : bool :=
   | KeyError, KeyError | IndexError, IndexError | ValueError, ValueError
   | TypeError, TypeError | AttributeError, AttributeError | StopIteration, StopIteration
   | NotImplementedError, NotImplementedError | NetworkXError, NetworkXError
+  | NetworkXUnfeasible, NetworkXUnfeasible
   | AssertionError, AssertionError | OverflowError, OverflowError
   | DispatchError, DispatchError | OutOfFuel, OutOfFuel | OtherExn, OtherExn => true
   | _, _ => false
@@ -186,5 +187,33 @@ Section OD.
   Definition od_keys (d : od) : list K := map fst d.
 End OD.
 
+(* {k: v for ...}: later values overwrite earlier ones, a key keeps its first position *)
+Definition od_of_pairs {K V} (eqb : K -> K -> bool) (l : list (K * V)) : @od K V :=
+  fold_left (fun d kv => od_setitem eqb d (fst kv) (snd kv)) l [].
+
 (* python ints *)
 Definition py_len {X} (l : list X) : Z := Z.of_nat (length l).
+
+(* python list indexing and slicing (negative indices count from the end) *)
+Definition py_index {X} (l : list X) (i : Z) : res X :=
+  let n := Z.of_nat (length l) in
+  let j := if Z.ltb i 0 then (i + n)%Z else i in
+  if orb (Z.ltb j 0) (Z.leb n j) then Raise IndexError
+  else match nth_error l (Z.to_nat j) with Some x => Ok x | None => Raise IndexError end.
+
+Definition py_clip (n i : Z) : Z :=
+  let j := if Z.ltb i 0 then (i + n)%Z else i in
+  if Z.ltb j 0 then 0%Z else if Z.ltb n j then n else j.
+
+Definition py_slice {X} (l : list X) (lo hi : option Z) : list X :=
+  let n := Z.of_nat (length l) in
+  let a := match lo with None => 0%Z | Some i => py_clip n i end in
+  let b := match hi with None => n | Some i => py_clip n i end in
+  firstn (Z.to_nat (b - a)) (skipn (Z.to_nat a) l).
+
+Fixpoint py_enumerate_from {X} (i : Z) (l : list X) : list (Z * X) :=
+  match l with
+  | [] => []
+  | x :: l' => (i, x) :: py_enumerate_from (i + 1)%Z l'
+  end.
+Definition py_enumerate {X} (l : list X) : list (Z * X) := py_enumerate_from 0%Z l.
